@@ -31,13 +31,15 @@ def fuzzy_instances(tier):
         wins = [(3, 2, 0, 3), (4, 2, 0, 4), (4, 2, 1, 4), (4, 2, 0, 3), (5, 3, 0, 5), (5, 3, 1, 5), (5, 2, 0, 5), (5, 2, 2, 5)]
     else:
         wins = []
-        for h in range(3, 8):
+        for h in range(3, 7):
             for n in range(2, 4):
                 if n >= h:
                     continue
                 for s in range(0, h - n):
                     for e in range(s + n + 1, h + 1):
                         wins.append((h, n, s, e))
+        # a few larger shapes (needle of 4, haystack of 7)
+        wins += [(7, 3, 0, 7), (7, 3, 2, 7), (6, 4, 0, 6), (7, 4, 0, 7), (7, 4, 1, 7)]
     for k, (h, n, s, e) in enumerate(wins):
         p = 1 if (h + n + s + e) % 2 == 0 else 0
         paths = [_pth(k)] if tier == "quick" else ["false", "true"]
@@ -51,7 +53,7 @@ def fuzzy_instances(tier):
         gw = [(4, 2, 0, 3), (4, 2, 1, 4), (5, 3, 0, 5), (5, 3, 1, 5), (5, 2, 0, 4)]
     else:
         gw = []
-        for h in range(3, 9):
+        for h in range(3, 8):
             for n in range(2, 5):
                 if n >= h:
                     continue
@@ -79,7 +81,7 @@ def fuzzy_instances(tier):
     if tier == "quick":
         sw = [(4, 2, 1, 3), (4, 2, 0, 4), (5, 3, 0, 3), (5, 3, 1, 5), (5, 2, 0, 5)]
     else:
-        sw = [(h, n, s, e) for h in range(3, 9) for n in range(2, 5) if n < h
+        sw = [(h, n, s, e) for h in range(3, 8) for n in range(2, 5) if n < h
               for s in range(0, h - n + 1) for e in range(s + n, h + 1)]
     for k, (h, n, s, e) in enumerate(sw):
         p = 1 if (h + n + s + e) % 2 == 0 else 0
@@ -99,7 +101,7 @@ def exact_instances(tier):
         sizes = {"substring": [(4, 2), (4, 3), (5, 3)], "prefix": [(4, 2), (3, 3)], "postfix": [(4, 2), (5, 3)], "exact": [(4, 2), (3, 3), (4, 3)]}
         f1 = [(3, 1), (5, 1)]
     else:
-        allsz = [(h, n) for h in range(2, 9) for n in range(2, 5) if n <= h]
+        allsz = [(h, n) for h in range(2, 7) for n in range(2, 4) if n <= h]
         sizes = {k: allsz for _, k in kinds}
         f1 = [(h, 1) for h in range(2, 11)]
     k = 0
@@ -121,12 +123,14 @@ def exact_instances(tier):
                                      "ignore_case": {"Some(true)": True, "Some(false)": False, "None": "symbolic"}[ic],
                                      "bonus_profile": "match_paths" if pa == "true" else "default"}, "matcher_exact"))
     # long needles / far starts: content = one symbolic byte repeated, length concrete
-    for kn, K in (("exact", "Exact"), ("prefix", "Prefix")) if tier == "quick" else (("exact", "Exact"), ("prefix", "Prefix"), ("postfix", "Postfix"), ("fuzzy", "Fuzzy1")):
-        o = Inst("long_needle_%s_4200" % kn, 4203, "long_needle::<4200>(Kind::%s)" % K, ["C03", "C10", "C05"],
-                 {"L": 4200, "content": "'a' repeated (concrete)", "kind": kn, "config": "symbolic"}, "matcher_exact")
+    # (symbolic execution of 4200 loop iterations takes ~15 min: thorough tier only)
+    for kn, K in () if tier == "quick" else (("exact", "Exact"), ("prefix", "Prefix"), ("fuzzy", "Fuzzy1")):
+        LN = 2600 if tier == "quick" else 4200
+        o = Inst("long_needle_%s_%d" % (kn, LN), LN + 3, "long_needle::<%d>(Kind::%s)" % (LN, K), ["C03", "C10", "C05"],
+                 {"L": LN, "content": "'a' repeated (concrete)", "kind": kn, "config": "symbolic"}, "matcher_exact")
         out.append(o)
     out.append(Inst("prefix_penalty_starts_h", 8, "prefix_penalty_all_starts()", ["C10", "C03"],
-                    {"haystack": "65 600 symbolic bytes", "start": "symbolic (every position)", "needle": "1 char", "prefer_prefix": True,
+                    {"haystack": "22 400 symbolic bytes", "start": "symbolic (every position)", "needle": "1 char", "prefer_prefix": True,
                      "entry": "Matcher::calculate_score called directly (window of one character)"}, "matcher_exact"))
     for h, n in f1:
         for pa in ["false", "true"]:
@@ -155,7 +159,7 @@ def uni_instances(tier):
             ["C01", "C10"], {"H": h, "N": n, "needle": "ascii bytes" if na else "code points"})
     # O'
     wins = [(4, 2, 0, 4, False), (4, 2, 1, 4, True), (5, 3, 0, 5, False)] if q else \
-           [(h, n, s, e, na) for h in range(3, 7) for n in range(2, 4) if n < h for s in range(0, h - n) for e in range(s + n + 1, h + 1) for na in (False, True)]
+           [(h, n, s, e, na) for h in range(3, 6) for n in range(2, 4) if n < h for s in range(0, h - n) for e in range(s + n + 1, h + 1) for na in (False, True)]
     for k, (h, n, s, e, na) in enumerate(wins):
         pa = _pth(k)
         add("optimal_uni_h%d_n%d_w%d_%d_%s" % (h, n, s, e, "an" if na else "un"), h,
@@ -201,13 +205,27 @@ def uni_instances(tier):
 
 def pattern_instances(tier):
     out = []
-    Ls = [1, 2, 3] if tier == "quick" else [1, 2, 3, 4]
-    for l in Ls:
-        out.append(Inst("atom_parse_ascii_l%d" % l, l + 3, "atom_parse_ascii::<%d>()" % l, ["C14"],
-                        {"L": l, "alphabet": "all 128 ASCII values", "case": "symbolic", "normalization": "symbolic"}, "matcher_pattern"))
-    for l in Ls[1:]:
-        out.append(Inst("atom_new_ascii_l%d" % l, l + 3, "atom_new_ascii::<%d>()" % l, ["C14"],
-                        {"L": l, "alphabet": "all 128 ASCII values", "case": "symbolic", "normalization": "symbolic"}, "matcher_pattern"))
+    BS = chr(92)
+    prefixes = ["", "!", BS + "!", "^", "'", BS + "^", BS + "'", "!^", "!'"]
+    suffixes = ["", "$", BS + "$"]
+    bodies = ["ab", "a" + BS + " b"] if tier == "quick" else ["ab", "a" + BS + " b", "a", "ab" + BS, "a" + BS + "b"]
+    k = 0
+    for pre in prefixes:
+        for suf in suffixes:
+            for body in bodies:
+                k += 1
+                if tier == "quick" and k % 5 != 0:
+                    continue
+                raw = pre + body + suf
+                def lit(c):
+                    if c == BS:
+                        return "b'" + BS + BS + "'"
+                    if c == "'":
+                        return "b'" + BS + "''"
+                    return "b'%s'" % c
+                arr = ", ".join(lit(c) for c in raw)
+                out.append(Inst("atom_shape_%03d" % k, 8, "atom_parse_shape::<%d>([%s])" % (len(raw), arr), ["C14"],
+                                {"text_template": raw, "letters": "symbolic case", "case_matching": "symbolic", "normalization": "symbolic"}, "matcher_pattern"))
     return out
 
 
@@ -298,7 +316,7 @@ def write_gen(sc, tier, extra=(), small=True):
             if not any(j.name == i.name for j in fams[i.family]):
                 fams[i.family].append(i)
     for fam, insts in fams.items():
-        sc.write_gen(fam + ".rs", gen_text(insts, {"matcher_uni": "harnesses_latin1", "matcher_dispatch": "harnesses_dispatch"}.get(fam, "harnesses")))
+        sc.write_gen(fam + ".rs", gen_text(insts, {"matcher_uni": "harnesses_latin1", "matcher_dispatch": "harnesses_dispatch", "matcher_pattern": "harnesses_pattern"}.get(fam, "harnesses")))
     src = open(sc.repo + "/matcher/src/chars/normalize.rs").read()
     txt, meta = ucd_ref.rust_tables(src)
     sc.write_gen("chars_ref.rs", txt)
